@@ -261,6 +261,8 @@ func init() {
 		"internal/bytealg.IndexByte":       inIndexByte,
 		"internal/bytealg.IndexByteString": inIndexByte,
 		"strings.IndexByte":                inIndexByte,
+		"internal/bytealg.CountString": inCount,
+		"internal/bytealg.Count":       inCount,
 		"internal/bytealg.Equal": func(fr *frame, a []Value) Value {
 			x := fr.x
 			return x.strEq(Str{x.bytesOf(a[0])}, Str{x.bytesOf(a[1])})
@@ -587,4 +589,17 @@ func inSameNumber(fr *frame, a []Value) Value {
 		return x.f.And(x.f.Eq(ta.neg, tb.neg), x.f.Eq(ta.mag, tb.mag))
 	}
 	return x.f.And(x.f.Bool(ta.bits == tb.bits), x.f.Eq(ta.mag, tb.mag))
+}
+
+func inCount(fr *frame, a []Value) Value {
+	x := fr.x
+	b := x.bytesOf(a[0])
+	c := a[1].(*Term)
+	n := 0
+	for _, e := range b {
+		if x.decide(fr, x.f.Eq(e, c)) {
+			n++
+		}
+	}
+	return x.f.Const(64, uint64(n))
 }
